@@ -6984,3 +6984,37 @@ mod tests {
         );
     }
 }
+
+// ---- verif hook H2 (cfg delaunay_verif): raw access for fault injection; not compiled otherwise ----
+#[cfg(delaunay_verif)]
+impl<T, U, V, const D: usize> Tds<T, U, V, D>
+where
+    U: DataType,
+    V: DataType,
+{
+    /// verif hook: insert a cell with no validation (UUID map kept in sync).
+    pub fn verif_insert_cell_raw(&mut self, cell: Cell<T, U, V, D>) -> CellKey {
+        let uuid = cell.uuid();
+        let key = self.cells.insert(cell);
+        self.uuid_to_cell_key.insert(uuid, key);
+        self.bump_generation();
+        key
+    }
+
+    /// verif hook: remove a cell from storage without repairing neighbours or incident cells.
+    pub fn verif_remove_cell_raw(&mut self, key: CellKey) -> Option<Cell<T, U, V, D>> {
+        let cell = self.cells.remove(key)?;
+        self.uuid_to_cell_key.remove(&cell.uuid());
+        self.bump_generation();
+        Some(cell)
+    }
+
+    /// verif hook: insert a vertex with no duplicate checks (UUID map kept in sync).
+    pub fn verif_insert_vertex_raw(&mut self, vertex: Vertex<T, U, D>) -> VertexKey {
+        let uuid = vertex.uuid();
+        let key = self.vertices.insert(vertex);
+        self.uuid_to_vertex_key.insert(uuid, key);
+        self.bump_generation();
+        key
+    }
+}
